@@ -71,6 +71,10 @@ def gen_cases(rng, tier):
     for i in range(max(4, reps // 10)):
         cases.append({'kind': 'source_fault', 'n': rng.pick([5, 150]), 'at': rng.pick([0, 3, 99, 100, 120]),
                       'via': rng.pick(['results', 'process']), 'parallel': rng.chance(0.4)})
+    # an item that is not a row (a list or tuple among dict rows, a string, a number, None), inside and past the inference sample (round 8)
+    for j, item in enumerate(('item_list', 'item_str', 'item_int', 'item_none', 'item_tuple')):
+        for at in (0, 3, 99, 100, 140):
+            cases.append({'kind': 'source_fault', 'n': 150, 'at': at, 'via': ['results', 'process'][(j + at) % 2], 'parallel': False, 'exc': item})
     # every exception class a source may raise, inside and past the inference sample
     for j, exc in enumerate(sorted(SRC_EXCS)):
         for at in (3, 99, 100, 140):
@@ -90,6 +94,10 @@ class FailingSource:
 
     def __iter__(self):
         for i in range(self.n):
+            if i == self.at and self.exc.startswith('item_'):
+                # an item of the wrong kind among the rows: the source link rejects it (an assertion), the run fails
+                yield {'item_list': [i, i], 'item_str': 'row %d' % i, 'item_int': i, 'item_none': None, 'item_tuple': (i, i)}[self.exc]
+                continue
             if i == self.at:
                 raise SRC_EXCS[self.exc]('source failed at %d' % i)
             yield {'_i': i, 'v': i}
@@ -211,6 +219,11 @@ def oracle(case, out):
             return 'the source raised at row %d but the run returned normally (%r rows)' % (case['at'], out.get('rows'))
         if out['outcome'][1] != 'ProcessorError':
             return 'raised %s, not ProcessorError' % out['outcome'][1]
+        if case.get('exc', '').startswith('item_'):
+            if not out['outcome'][2] or not out['outcome'][2][0].startswith('AssertionError:'):
+                return 'an item that is not a row (%s at %d): ProcessorError.cause is not the source link\'s AssertionError: cause chain %r' % (
+                    case['exc'], case['at'], out['outcome'][2])
+            return 'a dump descriptor positioned after the failing source was committed' if out['descriptor'] else None
         cls = type(SRC_EXCS[case.get('exc', 'runtime')]('x')).__name__
         if not out['outcome'][2] or not out['outcome'][2][0].startswith(cls + ':') or 'source failed' not in out['outcome'][2][0]:
             return 'ProcessorError.cause is not the exception the source raised: cause chain %r' % (out['outcome'][2],)
